@@ -252,9 +252,87 @@ def _range_item(x):
     return ((c[1], c[2]), c[3])
 
 
+def _fold_items(it, k):
+    """The k-th item of an iterator expression, in the shape the walker gives loop items (so that positions and
+    counters can be read off it); None for an adapter that is not modelled."""
+    it = strip(it)
+    if not isinstance(it, tuple) or not it:
+        return None
+    if it[0] == "call" and it[1].endswith("::zip") and len(it[2]) == 2:
+        a, b = _fold_items(it[2][0], k), _fold_items(it[2][1], k)
+        return None if a is None or b is None else ("tuple", (a, b))
+    if it[0] == "call" and it[1].endswith("::enumerate") and len(it[2]) == 1:
+        b = _fold_items(it[2][0], k)
+        return None if b is None else ("tuple", (("const", "usize", "%d_usize" % k, k), b))
+    if it[0] == "agg" and it[1].endswith("ops::RangeFrom"):
+        st = strip(dict(it[3]).get("start"))
+        if st[0] == "const" and isinstance(st[3], int):
+            return ("const", st[1], "%d_%s" % (st[3] + k, st[1]), st[3] + k)
+        return None
+    if it[0] == "call" and it[1].endswith("::rev") and len(it[2]) == 1:
+        return ("field", ("call", "<std::iter::Rev<I> as std::iter::Iterator>::next", (it,), ("fold", k)), "Some.0")
+    if it[0] == "call" and (it[1].endswith("::into_iter") or it[1].endswith("::iter")) and len(it[2]) == 1:
+        return ("field", ("call", "<I as std::iter::Iterator>::next", (it,), ("fold", k)), "Some.0")
+    if it[0] == "param":
+        return ("field", ("call", "<I as std::iter::Iterator>::next", (it,), ("fold", k)), "Some.0")
+    return None
+
+
+def _unfold(prog, t, steps=2):
+    """`iter.fold(init, |acc, item| ..)` walked for its first `steps` items: [(accumulator after k items, events)]."""
+    t = strip(t)
+    if not (isinstance(t, tuple) and t and t[0] == "call" and t[1].endswith("::fold") and len(t[2]) == 3):
+        return None
+    it, acc, clo = t[2]
+    clo = strip(clo)
+    if not (isinstance(clo, tuple) and clo and clo[0] == "closure"):
+        return None
+    pol = inline.helpers(prog)
+    K = pol.closure(clo[1])
+    if K is None:
+        return None
+    out = []
+    for k in range(steps):
+        item = _fold_items(it, k)
+        if item is None:
+            return None
+        ps = [p for p in Walker(K, max_visits=2, max_paths=2000, inline=pol).paths(init_env={1: clo, 2: acc, 3: item}) if p.end == "return"]
+        if len(ps) != 1:
+            return out + [(None, [e for p in ps for e in p.events])]      # the closure branches: keep its events
+        acc = ps[0].ret
+        out.append((acc, ps[0].events))
+    return out
+
+
+class _Unfolded:
+    """A builder path whose returned `fold(..)` was replaced by what the fold builds from its first items."""
+    def __init__(self, p, ret, events):
+        for k in getattr(p, "__slots__", None) or vars(p):
+            setattr(self, k, getattr(p, k))
+        self.ret = ret
+        self.events = list(p.events) + list(events)
+
+
+def _with_folds(prog, ps):
+    out = []
+    for p in ps:
+        uf = _unfold(prog, p.ret) if p.ret is not None else None
+        if not uf:
+            out.append(p)
+            continue
+        evs = []
+        for acc, ev in uf:
+            evs += ev
+            if acc is not None:
+                out.append(_Unfolded(p, acc, evs))
+        if all(acc is None for acc, ev in uf):
+            out.append(_Unfolded(p, p.ret, evs))
+    return out
+
+
 def _builder_paths(prog, b, visits=3):
     w = Walker(b, max_visits=visits, max_paths=60000, inline=inline.helpers(prog))
-    return [p for p in w.paths() if p.end == "return" and _feasible(p)]
+    return _with_folds(prog, [p for p in w.paths() if p.end == "return" and _feasible(p)])
 
 
 def run(ctx):
@@ -400,6 +478,11 @@ def run(ctx):
         if b.kind != "Closure" and pol(b.path) is not None and cs and b.path not in builders:
             in_context[b.path] = sorted(cs)
             todo.extend(by_path[c] for c in cs)
+        elif b.kind == "Closure" and b.parent in by_path and any(
+                t["callee"].get("path", "").endswith("::fold") and any(ca.get("closure") == b.path for ca in t["callee"].get("closure_args", []))
+                for i, t in by_path[b.parent].calls()):
+            in_context[b.path] = [b.parent]          # the step function of a fold: judged on the fold's first items
+            todo.append(by_path[b.parent])
         else:
             site_fns.append(b)
     ctx.extra["nodes_judged_at_their_callers"] = in_context
@@ -410,7 +493,7 @@ def run(ctx):
             ps = builders[b.path]["paths"]
         else:
             try:
-                ps = [p for p in Walker(b, max_visits=2, max_paths=80000, inline=pol).paths() if _feasible(p)]
+                ps = _with_folds(prog, [p for p in Walker(b, max_visits=2, max_paths=80000, inline=pol).paths() if _feasible(p)])
             except TooManyPaths:
                 ctx.ob("R3", "nodes(%s)" % b.npath, False, ctx.where(b), "too many paths")
                 continue
